@@ -106,6 +106,8 @@ pub struct Script {
     pub keep: Option<&'static [&'static str]>,
     /// abort the run (panic inside the hook, caught by the caller) when one transition builds more leaves than this
     pub max_leaves: usize,
+    /// force the momentum used by the initial step-size search (`nuts.init_momentum`), also when `inject` is false
+    pub init_momentum: Option<Vec<f64>>,
 }
 
 pub struct Recorded {
@@ -137,6 +139,13 @@ pub fn record_with<R>(script: Script, f: impl FnOnce() -> R) -> (Result<R, Strin
             g.1.push(Dec { n, chosen: c, kind: kind.to_string() });
             c
         };
+        if label == "nuts.init_momentum" {
+            if let Some(m) = &script.init_momentum {
+                if m.len() == vals.len() {
+                    vals.copy_from_slice(m);
+                }
+            }
+        }
         if script.inject {
             match label {
                 "nuts.momentum" => {
